@@ -271,6 +271,126 @@ Definition did_url_parse (data : list N) : outcome did_url did_err :=
   obind (check_validity base cb) (fun mi =>
   Ok {| u_did := base; u_method := fst mi; u_mid := snd mi; u_path := up; u_query := uq; u_frag := uf |})))))))).
 
+(* ---- DIDUrl::join (did_url.rs) over the third-party DID::join (did.rs: parse_relative + resolution::transform_references) ---- *)
+(* Core::parse_relative on the segment (NOT trimmed): parse_path, parse_query, parse_fragment from offset 0 *)
+Definition tp_rel_offsets (d : list N) : outcome tp_core did_err :=
+  match (match d with
+         | [] => Some O
+         | c3 :: _ => if stop_path c3 then Some O else tp_loop stop_path char_path d end) with
+  | None => Err EPath
+  | Some n3 =>
+    let r4 := skipn n3 d in
+    match r4 with
+    | [] => Ok {| o_method := 0; o_mid := 0; o_path := 0; o_query := None; o_frag := None |}
+    | c4 :: r4' =>
+      let qres :=
+        if c4 =? 35 then Some (None, r4, n3)
+        else if c4 =? 63 then
+          match tp_loop stop_query char_query r4' with
+          | None => None
+          | Some n4 => Some (Some n3, skipn n4 r4', (n3 + 1 + n4)%nat)
+          end
+        else None in
+      match qres with
+      | None => Err (if c4 =? 63 then EPath else EQuery)
+      | Some (oq, r5, i5) =>
+        match r5 with
+        | [] => Ok {| o_method := 0; o_mid := 0; o_path := 0; o_query := oq; o_frag := None |}
+        | c5 :: r5' =>
+          if negb (c5 =? 35) then Err EFragment else
+          match tp_loop stop_none char_query r5' with
+          | None => Err EFragment
+          | Some _ => Ok {| o_method := 0; o_mid := 0; o_path := 0; o_query := oq; o_frag := Some i5 |}
+          end
+        end
+      end
+    end
+  end.
+
+(* resolution::remove_dot_segments (RFC 3986 5.2.4 as written in the crate), on explicit fuel; the crate's loop always terminates
+   (every arm but the last shortens the input, the last one consumes a segment), fuel = length + 1 suffices *)
+Fixpoint pos_slash (l : list N) : option nat :=
+  match l with [] => None | c :: r => if c =? 47 then Some O else option_map S (pos_slash r) end.
+(* next_segment: a leading '/' belongs to the segment *)
+Fixpoint next_segment (l : list N) : option nat :=
+  match l with
+  | c :: r => if c =? 47 then option_map S (next_segment r) else pos_slash l
+  | [] => None
+  end.
+(* Path::pop: cut at the last '/' (nothing when there is none or the output is empty) *)
+Fixpoint rfind_slash (l : list N) (i : nat) (acc : option nat) : option nat :=
+  match l with [] => acc | c :: r => rfind_slash r (S i) (if c =? 47 then Some i else acc) end.
+Definition path_pop (out : list N) : list N :=
+  match rfind_slash out O None with Some i => firstn i out | None => out end.
+Definition DOT : N := 46.
+Fixpoint rds_loop (fuel : nat) (input out : list N) : list N :=
+  match fuel with
+  | O => out ++ input
+  | S fuel' =>
+    match input with
+    | a :: b :: c :: r =>
+        if (a =? DOT) && (b =? DOT) && (c =? 47) then rds_loop fuel' r out                       (* "../" *)
+        else if (a =? DOT) && (b =? 47) then rds_loop fuel' (c :: r) out                          (* "./" *)
+        else if (a =? 47) && (b =? DOT) && (c =? 47) then rds_loop fuel' (c :: r) out             (* "/./" *)
+        else if (a =? 47) && (b =? DOT) && (c =? DOT) then
+          match r with
+          | d :: _ => if d =? 47 then rds_loop fuel' r (path_pop out)                             (* "/../" *)
+                      else match next_segment input with
+                           | Some i => rds_loop fuel' (skipn i input) (out ++ firstn i input)
+                           | None => out ++ input end
+          | [] => rds_loop fuel' [a; b] (path_pop out)                                            (* "/.." -> "/." *)
+          end
+        else match next_segment input with
+             | Some i => rds_loop fuel' (skipn i input) (out ++ firstn i input)
+             | None => out ++ input end
+    | [a; b] =>
+        if (a =? DOT) && (b =? 47) then rds_loop fuel' [] out                                     (* "./" *)
+        else if (a =? 47) && (b =? DOT) then rds_loop fuel' [a] out                               (* "/." -> "/" *)
+        else if (a =? DOT) && (b =? DOT) then rds_loop fuel' [] out                               (* ".." *)
+        else match next_segment input with
+             | Some i => rds_loop fuel' (skipn i input) (out ++ firstn i input)
+             | None => out ++ input end
+    | [a] => if a =? DOT then rds_loop fuel' [] out else out ++ input                             (* "." *)
+    | [] => out
+    end
+  end.
+Definition remove_dot_segments (p : list N) : list N := rds_loop (2 * length p + 2) p [].
+
+(* merge_paths *)
+Definition merge_paths (base_path ref : list N) : list N :=
+  match base_path with
+  | [] => ref
+  | _ => match rfind_slash base_path O None with Some i => firstn (S i) base_path ++ ref | None => base_path ++ ref end
+  end.
+
+(* DIDUrl::join at the level of components.  The third-party setters that rebuild the string and shift the offsets of the joined value
+   are abstracted: the joined value's path / query / fragment are what transform_references hands to them (exercised, not proved). *)
+Definition did_url_join (u : did_url) (seg : list N) : outcome did_url did_err :=
+  match seg with
+  | c :: _ =>
+    if negb ((c =? 47) || (c =? 63) || (c =? 35)) then Err EPath else
+    let s := did_url_to_string u in
+    obind (tp_parse s) (fun bc =>
+    obind (tp_rel_offsets seg) (fun rc =>
+    obind (tp_path seg rc) (fun P =>
+    obind (tp_query seg rc) (fun Q =>
+    obind (tp_fragment seg rc) (fun F =>
+    obind (tp_path s bc) (fun bp =>
+    obind (tp_query s bc) (fun bq =>
+    let path' := if is_nil P then bp
+                 else if (match P with x :: _ => x =? 47 | [] => false end) then remove_dot_segments P
+                 else remove_dot_segments (merge_paths bp P) in
+    let query' := if is_nil P then (match Q with Some q => Some q | None => bq end) else Q in
+    obind (set_path (Some path')) (fun up =>
+    obind (set_query (match query' with Some x => Some (63 :: x) | None => None end)) (fun uq =>
+    obind (set_fragment (match F with Some x => Some (35 :: x) | None => None end)) (fun uf =>
+    let base := firstn (o_path bc) s in
+    let cb := {| o_method := o_method bc; o_mid := o_mid bc; o_path := o_path bc; o_query := None; o_frag := None |} in
+    obind (check_validity base cb) (fun mi =>
+    Ok {| u_did := base; u_method := fst mi; u_mid := snd mi; u_path := up; u_query := uq; u_frag := uf |})))))))))))
+  | [] => Err EPath
+  end.
+
 (* ---- Eq / Ord / Hash of DID URLs (did_url.rs; the DID part compares by its string, did_url_parser) ---- *)
 (* str::cmp: byte-wise lexicographic *)
 Fixpoint bytes_cmp (a b : list N) : comparison :=
